@@ -1301,7 +1301,7 @@ theorem rawL_emb (c : ECfg) {evL : EvL} {ev : Ev} (hev : EmbEv evL ev) (C : Ctx)
   | ucall f args kw =>
     unfold rawL Eval.step
     dsimp only
-    cases C.getFun f with
+    cases C.getFun (Eval.fnKey f) with
     | none => rfl
     | some p =>
       obtain ⟨body, D⟩ := p
